@@ -55,7 +55,13 @@ CHECKS['C11'] = dict(level='model_checking', design='1/C11',
 CHECKS['C09'] = dict(level='model_checking', design='1/C09',
      text='HttpRequest::read (request line, readHeaders, Expect, readBody with Content-Length and chunked framing, target splitting, Url::decode, the ".." filter), Url::Url, Url::decode and HttpServer::serve(Socket) (dispatch, file responses, Range variants) are executed symbolically with the real Socket_ layer over a system-call-level socket model: every request target up to the stated length never yields a path containing ".."; complete requests hand over exactly the method, decoded path, query, case-insensitively addressed headers and body that were sent; the same streams cut at every byte offset terminate without memory errors.',
      note='Bounds in evidence (targets: all bytes to length 2 quick / 3 thorough, 9-symbol alphabet to 4 / 6). Sockets, files and clock are environment models (env/vsock.c, env/vstdio.c, engine clock). Trusted: z3, engine IR semantics.')
+CHECKS['C10'] = dict(level='model_checking', design='1/C10',
+     text='One complete exchange between the real client (Http::request: connect, request line, headers, body, status line, readHeaders, readBody) and the real server (HttpServer::serve(Socket): HttpRequest::read, dispatch to a handler, HttpResponse write/putFile) is executed symbolically over the socket model: for GET/POST with symbolic body bytes (CR, LF, NUL included), symbolic printable header and query values, and responses sent as byte body, status 201, JSON, file, chunk-framed stream and every file range [b,e] within the bound, the handler observes exactly what was sent and the client observes exactly the status, header and body bytes produced. PARTIAL: one client, no handler threads, bodies of a few bytes.',
+     note='Partial claim: framing of small messages in both directions; the concurrency clause (many clients in flight), kept-alive client connections and the 16000/128000-byte block boundaries are outside (see evidence.outside). Sockets, files, resolver and clock are environment models. Trusted: z3, engine IR semantics.')
 NA = {
+ 'C13': 'not built yet',
+ 'C14': 'not built yet',
+ 'C19': 'not built yet',
 }
 ALL = ['C%02d' % i for i in range(1, 21)]
 man = {
